@@ -15,7 +15,10 @@ PROPERTY = 'C10'
 RULE = ('select: Hypothesis-generated library of 2-10 amplifier models (variable/fixed gain, advanced, OpenROADM, dual '
         'stage, Raman-flagged; gain ranges, p_max, NF) and a required (gain, power, raman_allowed, extended-gain allowance) '
         'given to the real select_edfa(); network: generated meshes whose amplifiers carry no model (variety lists, ROADM '
-        'booster/preamp restrictions, allowed_for_design flags, reduced-band models) designed by designed_network(). '
+        'booster/preamp restrictions, allowed_for_design flags, reduced-band models, per-frequency fibre loss around the Raman '
+        'limit, hybrid Raman models) designed by designed_network(); multiband: C+L lines of untyped multiband amplifiers with '
+        '2-4 multiband models whose per-band gain ranges lie a few dB apart (judged: permitted, one model for all bands, '
+        'capable if a capable model exists, not dominated in noise figure by a capable model). '
         'Non-trivial = >=3 permitted candidates with >=2 capable ones of distinct NF, or a restriction in force. '
         'distinct = sha1 of the case JSON.')
 ASSUMPTIONS = ['"can deliver" = gain_target <= gain_flatmax + allowance and power_target <= p_max, among the models that '
@@ -295,6 +298,146 @@ def run_network(case, ctx):
         netgen.reset_sim_params()
 
 
+# ------------------------------------------------------------------------------------------------ multiband
+
+@st.composite
+def multiband_case(draw):
+    """C+L line(s) whose multiband amplifiers carry no model: design picks one multiband type for all bands"""
+    from pbt.gens import bandnets
+    edges = {'C': [191.25e12, 196.15e12], 'L': [186.55e12, 190.05e12]}
+    edges.update(Cred=edges['C'], Cred2=edges['C'], Cshort=edges['C'], Lred=edges['L'])
+    eq = bandnets.library(edges, 'C')
+    ntypes = draw(st.integers(2, 4))
+    edfa = []
+    base = {'C': draw(st.sampled_from([20, 22, 25, 28])), 'L': draw(st.sampled_from([20, 22, 25, 28]))}
+    for i in range(ntypes):
+        parts = []
+        for b in ('C', 'L'):
+            # valid min/max-NF entries by forward construction (netgen), restricted to the band
+            # gain ranges of the models of one band lie a few dB apart: several models can serve one span, some of them only
+            # inside the extended-gain allowance
+            gmax = base[b] + draw(st.sampled_from([-4, -2, -1, 0, 1, 2, 4]))
+            e = draw(netgen.variable_gain_entry(f'{b}{i}', band=tuple(edges[b]), design=False,
+                                                gain_range=(gmax - draw(st.sampled_from([8, 10, 12])), gmax)))
+            e['out_voa_auto'] = False
+            e['p_max'] = draw(st.sampled_from([23, 25]))
+            edfa.append(e)
+            parts.append(e['type_variety'])
+        if draw(st.booleans()):
+            parts.reverse()
+        edfa.append(bandnets._mb(f'MB{i}', parts, design=(i == 0) or draw(st.integers(0, 3)) > 0))
+    eq['Edfa'] = edfa
+    eq['Span'][0]['target_extended_gain'] = draw(st.sampled_from([2.5, 2.5, 0, 1.0, 3.0]))
+    eq['Span'][0]['padding'] = draw(st.sampled_from([10, 5, 0]))
+    topo, truth = draw(bandnets.band_topology(['CLauto'], edges, n=(2, 3), extra_max=1, both_dirs_same=True))
+    # span losses spread around the gain limits of the generated models
+    for e in topo['elements']:
+        if e['type'] == 'Fiber':
+            e['params']['length'] = draw(st.sampled_from([60.0, 75.0, 85.0, 92.5, 100.0, 107.5, 115.0, 125.0, 140.0]))
+    return {'eq': eq, 'topo': topo, 'truth': truth, 'edges': edges}
+
+
+def run_multiband(case, ctx):
+    from gnpy.core import elements
+    from gnpy.tools.worker_utils import designed_network
+    eqj, topo = case['eq'], case['topo']
+    span, si = eqj['Span'][0], eqj['SI'][0]
+    ext = span['target_extended_gain']
+    netgen.reset_sim_params()
+    try:
+        equipment, network = netgen.build_network(eqj, topo)
+        designed_network(equipment, network)
+    except Exception as e:  # noqa
+        if 'do not belong to the same amp type' in str(e):
+            # the band amplifiers picked for one multiband amplifier must form one permitted multiband model
+            ctx.violation('band-amplifiers-picked-from-different-multiband-models', str(e)[:300])
+            return
+        ctx.label('skipped:design-failed:' + type(e).__name__)     # owned by C08
+        return
+    lib = {e['type_variety']: e for e in eqj['Edfa']}
+    permitted = [n for n, e in lib.items() if e['type_def'] == 'multi_band' and e['allowed_for_design']]
+    el_json = {e['uid']: e for e in topo['elements']}
+    # design bands as given to the ROADM degrees of this generator (bandnets 'CLauto'): channel count per band
+    bands = {}
+    for r in topo['elements']:
+        for lst in r.get('params', {}).get('per_degree_design_bands', {}).values() if r['type'] == 'Roadm' else []:
+            for b in lst:
+                name = 'L' if b['f_max'] < 191e12 else 'C'
+                bands[name] = b
+    interesting = False
+    for node in network.nodes():
+        if not isinstance(node, elements.Multiband_amplifier):
+            continue
+        if el_json.get(node.uid, {}).get('type_variety'):
+            continue
+        chosen_type = node.params.type_variety
+        if chosen_type not in permitted:
+            ctx.violation('chosen-multiband-model-not-permitted', f'{node.uid}: {chosen_type} not in {permitted}')
+            continue
+        per_band = {}
+        for amp in node.amplifiers.values():
+            b = 'L' if amp.params.f_max < 191e12 else 'C'
+            per_band[b] = amp
+        if sorted(per_band) != ['C', 'L']:
+            ctx.violation('multiband-amplifier-does-not-cover-the-design-bands', f'{node.uid}: {sorted(per_band)}')
+            continue
+        if sorted(a.params.type_variety for a in per_band.values()) != sorted(lib[chosen_type]['amplifiers']):
+            ctx.violation('band-amplifiers-not-those-of-the-chosen-multiband-model',
+                          f'{node.uid}: {chosen_type} = {lib[chosen_type]["amplifiers"]} but '
+                          f'{[a.params.type_variety for a in per_band.values()]}')
+            continue
+        # per band: required operating point, capability and NF of the constituent of every permitted type
+        reduced, boundary = False, False
+        capable_types = set(permitted)
+        nf = {}
+        for b, amp in per_band.items():
+            db = bands[b]
+            nch = int((db['f_max'] - db['f_min']) // db['spacing'])
+            gain = amp.effective_gain
+            power = si['power_dbm'] + 10 * math.log10(nch) + amp._delta_p
+            for t in permitted:
+                name = next(n for n in lib[t]['amplifiers'] if (lib[n]['f_max'] < 191e12) == (b == 'L'))
+                a = equipment['Edfa'][name]
+                margin = gain + 3 - a.gain_min
+                pw = min(power - gain + a.gain_flatmax + ext, a.p_max) - power
+                if t == chosen_type and pw <= BND:
+                    reduced = True
+                elif abs(margin) <= BND or abs(pw) <= BND:
+                    boundary = True
+                if not (margin > 0 and pw > 0):
+                    capable_types.discard(t)
+                nf[(t, b)] = nf_of(a, gain)[0]
+        if reduced:
+            ctx.label('outcome:at-limit')
+            continue
+        if boundary:
+            ctx.label('not-judged:boundary')
+            continue
+        ctx.label(f'capable-types:{min(len(capable_types), 3)}')
+        if not capable_types:
+            continue
+        if chosen_type not in capable_types:
+            ctx.violation('capable-multiband-model-exists-but-chosen-one-is-not', f'{node.uid}: chosen {chosen_type}, capable '
+                                                                                  f'{sorted(capable_types)}')
+            continue
+        # one multiband type serves all bands, so the quietest model of one band may not be the quietest of another: the
+        # chosen type must not be dominated, i.e. no capable permitted type is quieter in every band
+        for t in sorted(capable_types):
+            if t != chosen_type and all(nf[(t, b)] < nf[(chosen_type, b)] - 1e-9 for b in per_band):
+                ctx.violation('quieter-capable-multiband-model-exists',
+                              f'{node.uid}: chosen {chosen_type} ' + str({b: round(nf[(chosen_type, b)], 3) for b in per_band})
+                              + f' but {t} ' + str({b: round(nf[(t, b)], 3) for b in per_band}) + ' is quieter in every band')
+                break
+        if len(capable_types) >= 2:
+            interesting = True
+        ext_needed = any(per_band[b].effective_gain > equipment['Edfa'][per_band[b].params.type_variety].gain_flatmax + BND
+                         for b in per_band)
+        if ext_needed:
+            ctx.label('chosen-works-inside-extended-gain-allowance')
+    ctx.nontrivial(interesting)
+    netgen.reset_sim_params()
+
+
 def roadm_list(eq_json, el_json, key):
     """restriction list of a ROADM element: element params override the library entry"""
     r = el_json.get('params', {}).get('restrictions')
@@ -309,4 +452,6 @@ def roadm_list(eq_json, el_json, key):
 CHECKS = [
     Check('select', select_case(), run_select, quick=3000, thorough=120000, doc='select_edfa on generated libraries'),
     Check('network', network_case(), run_network, quick=500, thorough=16000, doc='models chosen by the real design'),
+    Check('multiband', multiband_case(), run_multiband, quick=1500, thorough=40000,
+          doc='multiband models chosen by the real design for untyped C+L amplifiers'),
 ]
